@@ -35,6 +35,17 @@ class EvalEnvironment:
         self._variables[name] = value
         return value
 
+    def save_variables(self, names):
+        return [(name, name in self._variables, self._variables.get(name))
+                for name in names]
+
+    def restore_variables(self, saved):
+        for name, was_set, value in saved:
+            if was_set:
+                self._variables[name] = value
+            else:
+                self._variables.pop(name, None)
+
     def get_variable(self, name):
         if name not in self._variables:
             raise EvalError(f"Unassigned variable: '{name}'")
@@ -171,6 +182,15 @@ def eval_comprehension(node, env):
     if any(not isinstance(subarray, Array) for subarray in subarrays):
         raise EvalError("Expected an array for variable assignment in complex array subclause.")
     condition_nodes = [node.children[i] for i in range(1+num_assignments, len(node.children))]
+    # The generator variables are local to the comprehension: put back
+    # whatever the session had under those names once we're done.
+    saved = env.save_variables(assign_names)
+    try:
+        return run_comprehension(body_node, assign_names, subarrays, condition_nodes, env)
+    finally:
+        env.restore_variables(saved)
+
+def run_comprehension(body_node, assign_names, subarrays, condition_nodes, env):
     subarray_index = 0
     output = Array([])
     while True:
